@@ -119,7 +119,7 @@ let handle (w : string list) : string =
       | "unload", [] -> OUnload
       | "restart", [] -> ORestart
       | _ -> failwith ("bad op " ^ kind) in
-    let (x1, outs) = step_f DelRangesLite.del_ranges_lite DelRangesLite.norm_ranges_lite !sm !st (parse_fault flt, o) in
+    let (x1, outs) = TopicInst.step_fi !sm !st (parse_fault flt, o) in
     st := x1;
     let lines = List.map (fun (sid, fr) -> "S" ^ string_of_n sid ^ " " ^ frame_str fr) outs in
     String.concat "\n" (("op " ^ string_of_int !opi) :: lines
